@@ -97,6 +97,25 @@ def stale_family(rng, name, eof=False):
     return Def(name, [('Init', rules)], tags=['stale'])
 
 
+def ctx_priority_family(rng, name):
+    """several right-context rules on the same lexeme whose contexts can hold at the same time, next to a longer rule
+    that keeps the accepting state non-terminal (saved-match path) and without one (accepting-transition path)"""
+    x = rng.choice(['a', 'b', '-'])
+    y = rng.choice(['c', 'd', '>'])
+    ctxs = [cs(('0', '9')), alt(ANY, EOFR), ANY, cs(('0', '5'), 'c'), diff(ANY, ch(y)), cat(ANY, ANY), EOFR, star(ch(y)), cs(('a', 'd'), ('0', '9'))]
+    rng.shuffle(ctxs)
+    lex = ch(x) if rng.random() < 0.6 else plus(ch(x))
+    rules = [Rule(lex, 'tok', ctx=ctxs[0]), Rule(lex, 'tok', ctx=ctxs[1])]
+    if rng.random() < 0.5:
+        rules.append(Rule(lex, 'tok', ctx=ctxs[2]))
+    if rng.random() < 0.6:
+        rules.append(Rule(lex, 'tok'))
+    if rng.random() < 0.7:
+        rules.insert(rng.randrange(len(rules) + 1), Rule(cat(ch(x), ch(y)), 'tok'))
+    rules.append(Rule(ANY, 'tok'))
+    return Def(name, [('Init', rules)], tags=['ctxprio'])
+
+
 def small_trees():
     """bounded-exhaustive regex trees over atoms a, b, [a-b], _ (<= 2 operators), as single-rule lexers"""
     atoms = [ch('a'), ch('b'), cs(('a', 'b')), ANY, st('ab')]
@@ -128,6 +147,87 @@ def small_trees():
     return out
 
 
+def rand_set(rng, universe='abcdefgh'):
+    items = []
+    for _ in range(rng.randrange(1, 4)):
+        if rng.random() < 0.35:
+            items.append(rng.choice(universe))
+        else:
+            i = rng.randrange(len(universe))
+            j = min(len(universe) - 1, i + rng.randrange(0, 5))
+            items.append((universe[i], universe[j]) if i != j else universe[i])
+    # lexgen rejects a single character listed twice (C12); ranges may overlap, nest and repeat
+    singles = [x for x in items if isinstance(x, str)]
+    if len(singles) != len(set(singles)):
+        items = [x for x in items if not isinstance(x, str)] + sorted(set(singles))
+    return cs(*items)
+
+
+def rand_class_expr(rng, depth):
+    if depth <= 0 or rng.random() < 0.3:
+        k = rng.random()
+        if k < 0.7:
+            return rand_set(rng)
+        if k < 0.8:
+            return ANY
+        if k < 0.9:
+            return ch(rng.choice('abcdefgh'))
+        return bi(rng.choice(['ascii_lowercase', 'ascii_alphanumeric', 'ascii_hexdigit']))
+    if rng.random() < 0.75:
+        return diff(rand_class_expr(rng, depth - 1), rand_class_expr(rng, depth - 1))
+    return alt(rand_class_expr(rng, depth - 1), rand_class_expr(rng, depth - 1))
+
+
+def class_defs(rng, thorough):
+    """class expressions end to end (regex_to_range_map + RangeMap + code generation): `expr = 0, _ = 1` on one character"""
+    exprs = [diff(cs(('0', '5'), ('7', '9')), cs(('0', '8'))), diff(cs(('a', 'z'), 'e'), ch('q')), diff(cs(('a', 'f'), ('c', 'd')), cs('x')),
+             diff(ANY, cs(('a', 'z'), ('c', 'f'))), diff(cs(('0', '9'), ('a', 'z'), ('c', 'f'), ('A', 'Z')), cs('x', 'X')),
+             diff(cs(('0', '9')), ch('0')), diff(cs(('0', '9')), cs('0', '1')), diff(diff(cs(('a', 'c'), ('k', 'p'), ('x', 'z')), cs(('e', 'k'))), ch('x')),
+             diff(cs(('a', 'c'), ('e', 'g')), cs(('a', 'f'))), diff(cs('a', 'c', 'd'), cs(('a', 'c'))), diff(bi('ascii_alphanumeric'), bi('ascii_digit')),
+             diff(alt(cs(('a', 'c')), cs(('b', 'e'))), cs(('c', 'd'))), diff(ANY, diff(ANY, cs(('b', 'd')))), diff(cs(('a', 'h')), diff(cs(('b', 'g')), cs(('d', 'e'))))]
+    for _ in range(250 if thorough else 50):
+        exprs.append(rand_class_expr(rng, 2))
+    out = []
+    seen = set()
+    for e in exprs:
+        if e[0] not in ('diff', 'alt'):
+            e = diff(e, cs('~'))
+        t = R.show(e)
+        if t in seen or not R.charset(e) or not F.ok_regex(e):
+            continue
+        seen.add(t)
+        out.append(Def('cl%d' % len(out), [('Init', [Rule(e, 'tok'), Rule(ANY, 'tok')])], tags=['class', 'C11'], nmax=1))
+    # the property's second example: a difference followed by a literal
+    out.append(Def('cl_seq', [('Init', [Rule(cat(diff(bi('ascii_alphabetic'), cs(('a', 'z'))), ch('x')), 'tok'), Rule(ANY, 'tok')])], tags=['class', 'C11'], nmax=2))
+    return out
+
+
+def overlap_family():
+    """a literal character against a range (at its start / inside / at its end / outside), optionally with `_`,
+    with diverging continuations: the char > range > any lookup order and the merging of range and any targets
+    into char targets in the subset construction"""
+    out = []
+    j = 0
+    for lo, hi in (('a', 'c'), ('b', 'c'), ('a', 'b'), ('a', 'd')):
+        for c in ('a', 'b', 'c', 'd'):
+            for with_any in (False, True):
+                alts = [cat(cs((lo, hi)), ch('x')), cat(ch(c), ch('y'))]
+                if with_any:
+                    alts.append(cat(ANY, ch('z')))
+                out.append(Def('ov%d' % j, [('Init', [Rule(alt(*alts), 'tok')])], tags=['C02', 'overlap']))
+                j += 1
+                # the same as separate rules (priorities instead of alternation)
+                rules = [Rule(cat(ch(c), ch('y')), 'tok'), Rule(cat(cs((lo, hi)), opt(ch('x'))), 'tok')]
+                if with_any:
+                    rules.append(Rule(cat(ANY, ch('z')), 'tok'))
+                out.append(Def('ovr%d' % j, [('Init', rules)], tags=['C01', 'overlap']))
+                j += 1
+    # keyword next to an identifier range
+    out.append(Def('kw', [('Init', [Rule(st('zip'), 'tok'), Rule(plus(cs(('a', 'z'))), 'tok'), Rule(ch(' '), 'skip')])], tags=['C01', 'C02', 'overlap']))
+    out.append(Def('kw2', [('Init', [Rule(plus(cs(('a', 'z'), ('0', '9'))), 'tok'), Rule(st('a9'), 'tok'), Rule(cat(ch('z'), ch('0')), 'tok')])], tags=['C01', 'C02', 'overlap']))
+    return out
+
+
 def c02_defs(rng, thorough):
     trees = small_trees()
     rng.shuffle(trees)
@@ -144,6 +244,8 @@ def c02_defs(rng, thorough):
     for j, r in enumerate(laws):
         lets = [('v', alt(ch('a'), plus(ch('b'))))] if 'var' in repr(r) else []
         defs.append(Def('law%d' % j, [('Init', [Rule(r, 'tok')])], lets=lets, tags=['C02']))
+    ov = [d for d in overlap_family() if 'C02' in d.tags]
+    defs += ov if thorough else ov[::2]
     for j in range(30 if thorough else 8):
         defs.append(Def('rtree%d' % j, [('Init', [Rule(F.rand_rule_regex(rng, 3), 'tok')])], tags=['C02']))
     return defs
@@ -164,6 +266,9 @@ def select(prop, thorough, rng):
         defs += [rewind_biased(rng, 'rw%d' % j) for j in range(nrand * 2)]
         defs += [F.rand_def(rng, 'r%d' % j, nsets=1, kinds=['tok', 'tok', 'ret', 'skip'], tags=['C01']) for j in range(nrand // 2)]
         defs += [stale_family(rng, 'st%d' % j) for j in range(nrand // 2 + 3)]
+        ov = [d for d in overlap_family() if 'C01' in d.tags]
+        defs += ov if thorough else ov[::3]
+        defs += [ctx_priority_family(rng, 'cp%d' % j) for j in range(nrand // 2)]
         variants = ((False, False),)
     elif prop == 'C02':
         defs = pick('C02', 'C11') + c02_defs(rng, thorough)
@@ -178,6 +283,7 @@ def select(prop, thorough, rng):
     elif prop == 'C04':
         defs = pick('C04')
         defs += [F.rand_def(rng, 'cx%d' % j, nsets=rng.choice([1, 1, 2]), ctx_p=0.6, eof_p=0.05, kinds=['tok', 'tok', 'ret', 'skip', 'cont'], maxrules=4, depth=1, tags=['C04']) for j in range(nrand + nrand // 2)]
+        defs += [ctx_priority_family(rng, 'cp%d' % j) for j in range(nrand // 2)]
     elif prop == 'C05':
         defs = pick('C05')
         defs += [F.rand_def(rng, 'eo%d' % j, nsets=rng.choice([1, 2, 2]), eof_p=0.45, kinds=['tok', 'ret', 'skip', 'cont', 'sw', 'swret'], maxrules=4, depth=1, tags=['C05']) for j in range(nrand + nrand // 2)]
@@ -208,6 +314,10 @@ def select(prop, thorough, rng):
         defs += [F.rand_def(rng, 'ak%d' % j, kinds=['ret', 'cont', 'rcont', 'skip', 'tok', 'sw', 'swret'], ctx_p=0.1, eof_p=0.1, tags=['C10']) for j in range(nrand // 2)]
         defs += [stale_family(rng, 'st%d' % j) for j in range(nrand // 2 + 3)]
         defs += [fdyn_def(rng, 'fa%d' % j, logging=True) for j in range(nrand // 3)]
+    elif prop == 'C11':
+        defs = class_defs(rng, thorough)
+        variants = ((False, False),)
+        N = 2
     elif prop == 'C13':
         defs = builtin_defs(thorough)
         variants = ((False, False),)
@@ -322,6 +432,7 @@ NONTRIVIAL = {
     'C08': (['invalid'], 'a failure (InvalidToken) was produced'),
     'C09': (['token'], 'a token was produced'),
     'C10': (['token'], 'an action ran and a token was produced'),
+    'C11': (['token'], 'a token was produced'),
     'C13': (['token'], 'a token was produced'),
     'C14': (['token'], 'all four constructors were executed'),
     'C15': (['token'], 'a clone was taken after a token'),
